@@ -11,6 +11,8 @@ def units_pool():
     us += [('P ' + spec(r, t)) for r, t in samples.TYPED_SCHEMAS]
     us.append('P ' + spec('"x" // {enum: @e}', None, {'@e': '["x", "y"]'}))
     us += ['P ' + spec(x) for x in ['{"a": @missing}', '{"a": 1,', '{\n "a": 1 // {min: 2}\n}', '[1, 2', '"a" // {regex: "["}']]
+    # free text before the first value: the loader handles it before any node of this schema exists
+    us += ['P ' + spec(x) for x in ['// note\n{\n  "a": 1\n}', '/* header */ 42', '# remark\n[\n  1, // one\n  2\n]', '// only a note']]
     us += ['R ' + hx(r) for r in samples.REGEXES + ['/[/', 'x']]
     us += ['E ' + hx(e) for e in samples.ENUMS + ['[1, 1]', '[1']]
     us += ['J ' + hx(j) for j in samples.JSONS + ['{"a":', '[1 2]']]
@@ -58,6 +60,9 @@ class Prop:
             procs = rng.choice([1, 2, 4, 16])
             us = rng.sample(pool, 10)
             cs.append(Case('conc own %d %d %d %d ;; %s' % (G, iters, procs, rng.randrange(10 ** 6), ' ; '.join(us)), 'own-objects'))
+            notes = [u for u in pool if u.startswith('P 2f2f') or u.startswith('P 2f2a') or u.startswith('P 23')]
+            us = notes + rng.sample(proj, 6)
+            cs.append(Case('conc own %d %d %d %d ;; %s' % (G, iters, procs, rng.randrange(10 ** 6), ' ; '.join(us)), 'own-objects-with-notes'))
             us = rng.sample(proj, 6)
             cs.append(Case('conc shared %d %d %d %d ;; %s' % (G, iters, procs, rng.randrange(10 ** 6), ' ; '.join(us)), 'shared-object'))
         return cs
